@@ -1,0 +1,171 @@
+//go:build verif
+
+package app
+
+// Contracts for govc (see /verif/DESIGN.md). Comment-only file: no executable code.
+
+// ---------- lock discipline helpers ----------
+//@ define unlocked(p *Process) bool = !held(p.Mutex) && !held(p.confMtx) && !held(p.stateMtx) && !held(p.timeMutex) && !held(p.mtxStopFn)
+
+// ---------- C02: restart policy ----------
+//@ define restartSpec(stopped bool, restart string, exit int, restarts int, max int) bool =
+//@    !stopped && (restart == "always" || (restart == "on_failure" && exit != 0)) && (max == 0 || restarts < max)
+
+//@ func (p *Process) getBackoff
+//@   ensures floor: result >= 1000000000
+//@   ensures value: result == ite(p.procConf.RestartPolicy.BackoffSeconds > 1, p.procConf.RestartPolicy.BackoffSeconds, 1) * 1000000000
+//@   assigns nothing
+
+//@ func (p *Process) getExitCode
+//@   requires !held(p.confMtx)
+//@   ensures result == p.procState.ExitCode
+//@   assigns nothing
+
+//@ func (p *Process) setExitCode
+//@   requires !held(p.confMtx)
+//@   ensures p.procState.ExitCode == code
+//@   assigns p.procState.ExitCode
+
+//@ func (p *Process) isRestartable
+//@   requires unlocked(p)
+//@   ensures spec: result <==> restartSpec(old(abool(p.isStopped)), p.procConf.RestartPolicy.Restart, p.procState.ExitCode, p.procState.Restarts, p.procConf.RestartPolicy.MaxRestarts)
+//@   ensures consumed: !abool(p.isStopped)
+//@   assigns abool(p.isStopped)
+
+//@ func (p *Process) prepareForShutDown
+//@   ensures abool(p.isStopped)
+//@   assigns abool(p.isStopped)
+
+// ---------- C09: reported state ----------
+//@ define isRunningState(s string) bool = s == "Running" || s == "Launched" || s == "Launching"
+
+//@ func (p *Process) isState
+//@   requires !held(p.stateMtx)
+//@   ensures result <==> p.procState.Status == state
+//@   assigns nothing
+
+//@ func (p *Process) isOneOfStates
+//@   requires !held(p.stateMtx)
+//@   ensures found: result ==> (exists i int :: 0 <= i && i < len(states) && states[i] == p.procState.Status)
+//@   ensures notfound: !result ==> (forall i int :: 0 <= i && i < len(states) ==> states[i] != p.procState.Status)
+//@   assigns nothing
+//@   loop 1 invariant held(p.stateMtx)
+//@   loop 1 invariant forall j int :: 0 <= j && j <= idx ==> states[j] != p.procState.Status
+//@   loop 1 invariant idx >= -1
+
+//@ func (p *Process) isRunning
+//@   requires !held(p.stateMtx)
+//@   ensures result <==> isRunningState(p.procState.Status)
+//@   assigns nothing
+
+//@ func (p *Process) onStateChange
+//@   requires !held(p.confMtx)
+//@   ensures skipped: state == "Skipped" ==> p.procState.ExitCode == 1
+//@   ensures forget: (state == "Restarting" || state == "Launching" || state == "Terminating") ==> p.procState.Health == "-"
+//@   ensures keepexit: state != "Skipped" ==> p.procState.ExitCode == old(p.procState.ExitCode)
+//@   ensures keephealth: !(state == "Restarting" || state == "Launching" || state == "Terminating") ==> p.procState.Health == old(p.procState.Health)
+//@   assigns p.procState.ExitCode, p.procState.Health
+
+//@ func (p *Process) setState
+//@   requires !held(p.stateMtx) && !held(p.confMtx)
+//@   ensures p.procState.Status == state
+//@   ensures skipped: state == "Skipped" ==> p.procState.ExitCode == 1
+//@   ensures forget: (state == "Restarting" || state == "Launching" || state == "Terminating") ==> p.procState.Health == "-"
+//@   ensures keepexit: state != "Skipped" ==> p.procState.ExitCode == old(p.procState.ExitCode)
+//@   ensures keephealth: !(state == "Restarting" || state == "Launching" || state == "Terminating") ==> p.procState.Health == old(p.procState.Health)
+//@   assigns p.procState.Status, p.procState.ExitCode, p.procState.Health
+
+//@ func (p *Process) getStartingStateName
+//@   ensures result == ite(p.procConf.IsDaemon, "Launching", "Running")
+//@   assigns nothing
+
+// ---------- process object invariant (established by NewProcess) ----------
+//@ define procWF(p *Process) bool = p.procConf != nil && p.procState != nil &&
+//@    cancelOf(p.runCancelFn) == p.procRunCtx && cancelOf(p.readyCancelFn) == p.procReadyCtx && cancelOf(p.readyLogCancelFn) == p.procLogReadyCtx &&
+//@    p.procRunCtx != p.procReadyCtx && p.procRunCtx != p.procLogReadyCtx && p.procReadyCtx != p.procLogReadyCtx &&
+//@    closeOnly(p.procStartedChan)
+
+// ---------- wait primitives (C01/C05) ----------
+//@ func (p *Process) waitForCompletion
+//@   requires !held(p.Mutex) && !held(p.confMtx)
+//@   ensures done: p.done
+//@   ensures code: result == p.procState.ExitCode
+//@   assigns nothing
+//@   loop 1 invariant held(p.Mutex) && !held(p.confMtx)
+
+//@ func (p *Process) waitUntilReady
+//@   requires !held(p.confMtx)
+//@   ensures released: cancelled(p.procReadyCtx)
+//@   ensures ready: result <==> p.procState.Health == "Ready"
+//@   ensures aborted: !result ==> p.procState.ExitCode == 1
+//@   ensures kept: result ==> p.procState.ExitCode == old(p.procState.ExitCode)
+//@   assigns p.procState.ExitCode
+
+//@ func (p *Process) waitUntilLogReady
+//@   ensures released: cancelled(p.procLogReadyCtx)
+//@   ensures ready: result <==> causeOk(p.procLogReadyCtx)
+//@   assigns nothing
+
+//@ func (p *Process) waitForStarted
+//@   requires procWF(p)
+//@   ensures closed(p.procStartedChan) || cancelled(p.procRunCtx)
+//@   assigns slept()
+
+// ---------- life-cycle steps ----------
+//@ func isStringDefined
+//@   ensures result ==> str != ""
+//@   assigns nothing
+
+//@ func (p *Process) onProcessStart
+//@   requires procWF(p) && !held(p.Mutex)
+//@   ensures closed(p.procStartedChan) && p.started
+//@   assigns p.started, closed(p.procStartedChan), loggerOpen(p.logger)
+
+//@ func (p *Process) stopProbes
+//@   assigns health.Prober.stopped[*]
+//@ func (p *Process) startProbes
+//@   assigns health.Prober.stopped[*]
+
+//@ func (p *Process) notifyDaemonStopped
+//@   assigns slept()
+
+//@ func (p *Process) isDaemonLaunched
+//@   ensures result <==> (p.procConf.IsDaemon && p.procState.ExitCode == 0)
+//@   assigns nothing
+
+//@ func (p *Process) updateProcState
+//@   requires !held(p.stateMtx) && !held(p.timeMutex)
+//@   ensures p.procState.IsRunning <==> isRunningState(p.procState.Status)
+//@   assigns p.procState.SystemTime, p.procState.Age, p.procState.Name, p.procState.Mem, p.procState.CPU, p.procState.IsRunning, p.procState.IsElevated, p.procState.PasswordProvided
+
+// C04: when a process reaches a terminal state every wait primitive a dependent can block on is released.
+//@ func (p *Process) onProcessEnd
+//@   requires procWF(p) && unlocked(p)
+//@   requires terminal: state == "Completed" || state == "Skipped" || state == "Error" || state == "Terminating"
+//@   param waitForStoppedFn as cancelfunc
+//@   param readyCancelFn as cancelfunc
+//@   param readyLogCancelFn as cancelcausefunc
+//@   param runCancelFn as cancelfunc
+//@   ensures done: p.done
+//@   ensures state: p.procState.Status == state
+//@   ensures notrunning: !p.procState.IsRunning
+//@   ensures skipexit: state == "Skipped" ==> p.procState.ExitCode == 1
+//@   ensures keepexit: state != "Skipped" ==> p.procState.ExitCode == old(p.procState.ExitCode)
+//@   ensures ready-released: cancelled(p.procReadyCtx)
+//@   ensures logready-released: cancelled(p.procLogReadyCtx)
+//@   ensures started-released: closed(p.procStartedChan) || cancelled(p.procRunCtx)
+//@   ensures unlocked(p)
+//@   assigns p.done, p.waitForStoppedFn, p.procState.Status, p.procState.ExitCode, p.procState.Health, health.Prober.stopped[*], loggerOpen(p.logger),
+//@           p.procState.SystemTime, p.procState.Age, p.procState.Name, p.procState.Mem, p.procState.CPU, p.procState.IsRunning, p.procState.IsElevated, p.procState.PasswordProvided,
+//@           cancelled[*], causeOk[*]
+
+//@ func (p *Process) wontRun
+//@   requires procWF(p) && unlocked(p)
+//@   ensures p.done && p.procState.Status == "Skipped" && p.procState.ExitCode == 1
+
+//@ func (p *Process) getStartTime
+//@   requires !held(p.timeMutex)
+//@   assigns nothing
+//@ func (p *Process) setStartTime
+//@   requires !held(p.timeMutex)
+//@   assigns p.startTime
